@@ -406,7 +406,30 @@ func sameValue(a, b ssa.Value) bool {
 	lb, ok2 := b.(*ssa.UnOp)
 	if ok1 && ok2 && la.Op == token.MUL && lb.Op == token.MUL {
 		ca, cb := cellOf(la.X), cellOf(lb.X)
-		return ca != nil && ca == cb
+		if ca != nil && ca == cb {
+			return true
+		}
+		// two loads through the same address expression (&s[i], &x.f with identical operands)
+		return sameAddr(la.X, lb.X, 0)
+	}
+	return false
+}
+
+// sameAddr: structurally identical address computations over identical SSA operands.
+func sameAddr(a, b ssa.Value, depth int) bool {
+	if a == b {
+		return true
+	}
+	if depth > 3 {
+		return false
+	}
+	switch x := a.(type) {
+	case *ssa.IndexAddr:
+		y, ok := b.(*ssa.IndexAddr)
+		return ok && x.Index == y.Index && (x.X == y.X || sameValue(x.X, y.X))
+	case *ssa.FieldAddr:
+		y, ok := b.(*ssa.FieldAddr)
+		return ok && x.Field == y.Field && (x.X == y.X || sameValue(x.X, y.X))
 	}
 	return false
 }
